@@ -25,7 +25,10 @@ type combo struct {
 	// reset    = the position writes that follow the source's +FULLRESYNC (ResetStartPoint) fail until the tool gives the
 	//            connection up (a new PSYNC arrives) or goes on to the run-id bookkeeping (checkpoint-hash key touched)
 	// setrunid = the run-id bookkeeping (UpdateCheckpoint) fails from its k-th write on, for n attempts
+	// startup  = one look-up of the checkpoint name under the previous replication id is answered with an error while
+	//            a fresh instance does its start-up bookkeeping
 	TFault string
+	Idle   bool // the source produces nothing after the reconnect (the tool is stopped in the idle period)
 }
 
 func (c combo) Label() string {
@@ -35,6 +38,9 @@ func (c combo) Label() string {
 	}
 	if c.TFault != "" {
 		l += "|tfault=" + c.TFault
+	}
+	if c.Idle {
+		l += "|idle"
 	}
 	return l
 }
@@ -62,6 +68,22 @@ func enumerate() []combo {
 					out = append(out, combo{Src: src, Cache: "natural", Pid: "id1", Prel: "at-right", Backend: be, Restart: rs, Drop: true, TFault: "setrunid"})
 					out = append(out, combo{Src: src, Cache: "natural", Pid: "id1", Prel: "at-right", Backend: be, Restart: rs, TFault: "setrunid"})
 				}
+			}
+			if strings.HasPrefix(src, "failover") {
+				for _, ca := range []string{"empty", "natural"} {
+					pr := "na"
+					if ca == "natural" {
+						pr = "at-right"
+					}
+					out = append(out, combo{Src: src, Cache: ca, Pid: "id1", Prel: pr, Backend: be, Restart: "restart", TFault: "startup"})
+				}
+			}
+			if src == "same" || src == "trim-before" || src == "failover-late" {
+				// the cache does not cover the stored position, the source grants it, then stays idle
+				out = append(out, combo{Src: src, Cache: "empty", Pid: "id1", Prel: "na", Backend: be, Restart: "restart", Idle: true})
+				out = append(out, combo{Src: src, Cache: "other-id", Pid: "id1", Prel: "beyond-right", Backend: be, Restart: "restart", Idle: true})
+				out = append(out, combo{Src: src, Cache: "log-only", Pid: "id1", Prel: "beyond-right", Backend: be, Restart: "restart", Idle: true})
+				out = append(out, combo{Src: src, Cache: "natural", Pid: "id1", Prel: "at-right", Backend: be, Restart: "restart", Idle: true})
 			}
 			if src == "same" || src == "trim-before" || src == "failover-late" {
 				// the snapshot is cached and replayed, the tool stops before its position is stored
@@ -253,7 +275,9 @@ func buildPlan(r *rand.Rand, c combo) (*plan, error) {
 	p.S2 = genSnapshot(r, "s2")
 	p.HbReply, p.HbRDB = r.Intn(3), r.Intn(3)
 	// what the old master produced while the tool was away
-	growPiece(r, p.H1, "g", 0, 2, p.PTxn)
+	if !c.Idle { // (idle: the stored position is the end of everything the source ever produced)
+		growPiece(r, p.H1, "g", 0, 2, p.PTxn)
+	}
 	P1 := p.L1End
 	natural := c.Cache == "natural"
 
@@ -263,6 +287,8 @@ func buildPlan(r *rand.Rand, c combo) (*plan, error) {
 		bs := p.H1.boundaries(p.B1, p.H1.End())
 		var cand []int64
 		switch {
+		case c.Idle:
+			cand = []int64{P1}
 		case c.Prel == "na" && c.Pid == "id1":
 			cand = []int64{P1}
 		case natural && c.Prel == "at-right":
@@ -337,7 +363,14 @@ func buildPlan(r *rand.Rand, c combo) (*plan, error) {
 		} else {
 			p.Behind = true
 		}
-		growPiece(r, p.H2, "dd", until, r.Intn(2), p.PTxn)
+		if c.Idle {
+			until = p.S
+		}
+		minD := r.Intn(2)
+		if c.Idle {
+			minD = 0
+		}
+		growPiece(r, p.H2, "dd", until, minD, p.PTxn)
 	case "newid":
 		b3 := ref - int64(1+r.Intn(400))
 		if r.Intn(4) == 0 {
